@@ -583,7 +583,7 @@ def r4(ctx):
                              f"visits every key", not (partial and exits), ctx.w(f, exits[0] if exits else lp),
                    f"keys are {arity}-tuples {norm(key)}; a filter on a projection can match several keys, leaving the "
                    f"loop at the first match skips the others")
-    ctx.floor("C14.R4", "projection filters over _object_futures", nloops, 1)
+    ctx.stats["C14.R4.projection filters over _object_futures"] = nloops
 
     # cancel_futures: projection is the id component, compared with the parameter, every future cancelled
     cpar = can.params[1]
@@ -600,10 +600,41 @@ def r4(ctx):
                     if sub and oth and sub[0].slice.value in idpos:
                         cmp_ok = True
                         cancel_ok = len(fs) == 1
+    # equivalent form: direct lookups of (local_id, t) for EVERY member t of the update-type key space
+    enum_name = next(((ap(a.annotation) or "").split(".")[-1] for a in reg.tree.args.args
+                      if isinstance(key.elts[tpos], ast.Name) and a.arg == key.elts[tpos].id and a.annotation is not None), None)
+    direct_msg = ""
+    ncancel = 0
+    for c in find_calls(can.tree, "cancel", into_defs=False):
+        ncancel += 1
+        loops = [a for a in ancestors(c) if isinstance(a, ast.For)]
+        for i, lp in enumerate(loops):
+            srcx = strip_copy(origin(can.tree, lp.iter))[0]
+            k = None
+            if isinstance(srcx, ast.Call) and call_attr(srcx) == "get" and isinstance(srcx.func, ast.Attribute) \
+                    and (ap(srcx.func.value) or "").endswith("._object_futures") and srcx.args:
+                k = origin(can.tree, srcx.args[0])
+            elif isinstance(srcx, ast.Subscript) and (ap(srcx.value) or "").endswith("._object_futures"):
+                k = origin(can.tree, srcx.slice)
+            if not (isinstance(k, ast.Tuple) and len(k.elts) == arity and all(ap(k.elts[j]) == cpar for j in idpos)):
+                continue
+            t = k.elts[tpos]
+            whole = any(isinstance(t, ast.Name) and ap(o.target) == t.id and enum_name is not None
+                        and (ap(strip_copy(o.iter)[0]) or "").split(".")[-1] == enum_name for o in loops[i + 1:])
+            if whole:
+                cmp_ok = True
+                extra = [e for e, pol in facts(c, can.tree)
+                         if not (isinstance(e, ast.Compare) and len(e.ops) == 1 and isinstance(e.ops[0], (ast.In, ast.NotIn))
+                                 and any(pp.endswith("._object_futures") for pp in paths_in(e)))]
+                cancel_ok = cancel_ok or not extra
+            else:
+                direct_msg = (f"direct lookup of {norm(k)} fixes the update-type component to {norm(t)}: requests "
+                              f"registered under the other members of {enum_name} for that local id are never cancelled")
     ctx.ob("C14.R4", f"{RS}.cancel_futures matches the local-id component of the key against its parameter",
-           cmp_ok, can.fi.where, f"key layout is {norm(key)} (update type at index {tpos})")
+           cmp_ok, can.fi.where, direct_msg or f"key layout is {norm(key)} (update type at index {tpos}); found "
+                                               f"{ncancel} cancel call(s), none under a filter on the id component")
     ctx.ob("C14.R4", f"{RS}.cancel_futures cancels every future of every matching key", cancel_ok, can.fi.where,
-           "cancellation is subject to a further condition")
+           direct_msg or "cancellation is subject to a further condition")
 
     # (e) key agreement in resolve_futures
     rk = None
